@@ -1,6 +1,9 @@
 import SemVerif.Spec.Stack
 import SemVerif.Spec.RuleSet
 import SemVerif.Spec.Findings
+import SemVerif.Spec.Denote
+import SemVerif.Spec.Typed
+import SemVerif.Spec.Flow
 import SemVerif.Wire
 /-!
 # Spec/Preds — per property: the decidable output predicate `P_Cxx` (list of failing instances,
@@ -92,5 +95,160 @@ partial def Block.allStacks (b : Block) : String :=
   "[" ++ " ".intercalate (b.context.map wInstr) ++ " {" ++ " ".intercalate (b.children.map Block.allStacks) ++ "}]"
 
 def pi_C18 (r : Result) : String := " | ".intercalate (r.roots.map Block.allStacks)
+
+/-! ### C03, C06, C07, C19: denotation of the stack against the source -/
+
+/-- per function: (source statements, stack statements) -/
+def denotePairs (p : Program) (r : Result) : List (List DStmt × List DStmt) :=
+  let g := p.rglobals
+  (p.fnDecls.zip r.roots).map fun (f, b) => (specStmts g f, abstractStack b.context)
+
+def cmpRendered (tag : String) (f : DStmt → String) (pairs : List (List DStmt × List DStmt)) : List String :=
+  pairs.zipIdx.flatMap fun ((spec, abs), i) =>
+    let a := spec.map f
+    let b := abs.map f
+    if a == b then [] else
+      let k := ((a.zip b).findIdx? fun (x, y) => x != y).getD (min a.length b.length)
+      [s!"{tag}:fn{i}:stmt{k}:source=<{a.getD k "-"}>:stack=<{b.getD k "-"}>"]
+
+def P_C03 (p : Program) (r : Result) : List String :=
+  if !acceptedWF p r then [] else
+  cmpRendered "c03" (fun d => " ".intercalate d.refs) (denotePairs p r)
+
+def P_C06 (p : Program) (r : Result) : List String :=
+  if !acceptedWF p r then [] else
+  cmpRendered "c06" (DStmt.render DTree.flat) (denotePairs p r)
+
+/-- C07 is stated for every accepted program whose chains are well typed; the bracketing of the
+emitted operations is compared with the reference precedence tree -/
+def P_C07 (p : Program) (r : Result) : List String :=
+  if !acceptedWF p r then [] else
+  cmpRendered "c07" (DStmt.render DTree.shape) (denotePairs p r)
+
+def DStmt.hasExt (d : DStmt) : Bool := match d.tree? with
+  | some t => !t.exts.isEmpty
+  | none => false
+
+/-- C19: extension leaves once, in evaluation order, the operand is the returned result verbatim,
+and every extension instruction of a block is in every ancestor's stack (by C18's subsequence) -/
+def P_C19 (p : Program) (r : Result) : List String :=
+  if r.panic.isSome then [] else
+  -- evaluated once, in place: for every program the tags pushed are a prefix-closed subsequence;
+  -- for accepted well-formed programs the statement trees with extension leaves are exact
+  (if acceptedWF p r then
+    cmpRendered "c19" (fun d => if d.hasExt then DStmt.render DTree.str d else "") (denotePairs p r) ++
+    ((p.fnDecls.zip r.roots).zipIdx.flatMap fun ((f, b), i) =>
+      let want := f.extLeaves.map (·.1)
+      let got := b.context.filterMap fun | .ext t _ => some t | _ => none
+      if want == got then [] else [s!"c19:fn{i}:extension-instructions:{got}:expected:{want}"])
+   else []) ++
+  (r.roots.zipIdx.flatMap fun (b, i) => if b.subseqOk then [] else [s!"c19:fn{i}:extension-instruction-missing-in-ancestor"])
+
+def isExtInstr : Instr → Bool
+  | .ext _ _ => true
+  | _ => false
+
+/-! ### C04 -/
+
+def P_C04 (p : Program) (r : Result) : List String :=
+  if !acceptedWF p r then [] else
+  (p.fnDecls.zip r.roots).zipIdx.flatMap fun ((f, b), i) =>
+    (typedStack r.funcs r.consts f b.context).map fun m => s!"c04:fn{i}:{m}"
+
+/-! ### C05 -/
+
+def c05Outcomes : Nat := 6
+def c05Fuel : Nat := 600
+
+def P_C05 (p : Program) (r : Result) : List String :=
+  if !acceptedWF p r then [] else
+  ((p.fnDecls.zip r.roots).zipIdx.flatMap fun ((f, b), i) =>
+    match flowCheck f b.context c05Outcomes c05Fuel with
+    | none => []
+    | some why =>
+      if f.hasF2 then ["F2:nested-if-in-if-body-reuses-the-enclosing-end-label"]
+      else if f.hasF3 then ["F3:loop-end-label-never-set-after-loop-level-return"]
+      else [s!"c05:fn{i}:{why}"]).eraseDups
+
+def isFlowInstr (i : Instr) : Bool := isLabelInstr i || i.isEffect
+
+/-! ### C15 -/
+
+def P_C15 (p : Program) (r : Result) : List String :=
+  if r.panic.isSome then [] else
+  let ds := declPhase p
+  let wantTypes := ds.rtypes.map fun d => (d.name, Ty.struct d.name (attrsToMap d.attrs 0 .nil))
+  let wantConsts := ds.rdecls.filterMap fun
+    | .const d => some (d.name, (⟨d.name, d.ty.toTy, d.value⟩ : ConstSem))
+    | _ => none
+  let wantFuncs := ds.rdecls.filterMap fun
+    | .fn f => some (f.name, (⟨f.name, f.result.toTy, f.params.map (·.2.toTy)⟩ : Func))
+    | _ => none
+  let wantCtx := (ds.rtypes.map fun d => Instr.types d.name (attrsToMap d.attrs 0 .nil)) ++
+    ds.rdecls.filterMap fun
+      | .const d => some (Instr.const ⟨d.name, d.ty.toTy, d.value⟩)
+      | .fn f => some (Instr.fnDecl f.name (f.params.map fun q => ⟨q.1, q.2.toTy⟩) f.result.toTy)
+      | _ => none
+  (if sortByKey wantTypes == sortByKey r.types then [] else ["c15:type-table-differs-from-first-passing-declarations"]) ++
+  (if sortByKey wantConsts == sortByKey r.consts then [] else ["c15:constant-table-differs-from-first-passing-declarations"]) ++
+  (if sortByKey wantFuncs == sortByKey r.funcs then [] else ["c15:function-table-differs-from-first-passing-declarations"]) ++
+  (if wantCtx == r.gcontext then [] else ["c15:global-stack-differs"]) ++
+  (if r.roots.length == p.fnDecls.length then [] else ["c15:number-of-root-blocks"]) ++
+  (if nodupB (r.types.map (·.1)) && nodupB (r.consts.map (·.1)) && nodupB (r.funcs.map (·.1)) then [] else ["c15:table-key-twice"])
+
+def pi_C15 (r : Result) : String :=
+  printResult { r with errors := [], roots := r.roots.map fun _ => Block.fresh }
+
+/-! ### C16, C17: groups of runs -/
+
+def errStrs (r : Result) : List String := (r.errors.map wErr).mergeSort (· ≤ ·)
+
+def tablesStr (r : Result) : String :=
+  printResult { r with errors := [], roots := [], gcontext := [] }
+
+/-- per function name the whole block tree -/
+def fnBlocks (p : Program) (r : Result) : List (Name × String) :=
+  sortByKey ((p.fnDecls.zip r.roots).map fun (f, b) => (f.name, wBlock b))
+
+def P_C16 (group : List (Program × Result)) : List String :=
+  match group with
+  | [] => []
+  | (p0, r0) :: rest =>
+    if r0.panic.isSome then [] else
+    (rest.zipIdx.flatMap fun ((q, r), i) =>
+      (if pi_verdict r == pi_verdict r0 then [] else [s!"c16:perm{i}:verdict-differs"]) ++
+      (if errStrs r == errStrs r0 then [] else [s!"c16:perm{i}:error-multiset-differs"]) ++
+      (if tablesStr r == tablesStr r0 then [] else [s!"c16:perm{i}:global-tables-differ"]) ++
+      (if fnBlocks q r == fnBlocks p0 r0 then [] else [s!"c16:perm{i}:function-stack-or-block-tree-differs"]))
+
+def isRNF (e : Err) : Bool := e.kind == .returnNotFound
+
+/-- group layout: base, all bodies stubbed (empty), then for every function `i` the program with
+all *other* bodies stubbed, then for every function `i` the program with all other bodies replaced
+by bodies of another program -/
+def P_C17 (group : List (Program × Result)) : List String :=
+  match group with
+  | (p0, r0) :: (_, rs) :: rest =>
+    if r0.panic.isSome || rest.any (·.2.panic.isSome) then [] else
+    let n := p0.fnDecls.length
+    if rest.length != 2 * n then ["c17:harness-group-layout"] else
+    let stubV := rest.take n
+    let randV := rest.drop n
+    let d := rs.errors.take (rs.errors.length - n)
+    let tailOk := (rs.errors.drop (rs.errors.length - n)).all isRNF && rs.errors.length ≥ n
+    let segs := stubV.zipIdx.map fun ((_, r), i) =>
+      -- errors = d ++ RNF^i ++ E_i ++ RNF^(n-i-1)
+      let body := (r.errors.drop (d.length + i))
+      body.take (body.length - (n - i - 1))
+    let shapeOk := stubV.zipIdx.all fun ((_, r), i) =>
+      r.errors.take d.length == d && ((r.errors.drop d.length).take i).all isRNF &&
+      (r.errors.drop (r.errors.length - (n - i - 1))).all isRNF && r.errors.length ≥ d.length + n - 1
+    (if tailOk && shapeOk then [] else ["c17:stubbed-programs-do-not-report-declaration-errors-then-one-ReturnNotFound-per-stub"]) ++
+    (if r0.errors == d ++ segs.flatten then [] else ["c17:error-list-is-not-declaration-errors-followed-by-body-errors-in-order"]) ++
+    ((stubV ++ randV).zipIdx.flatMap fun ((_, r), k) =>
+      let i := k % n
+      (if (r.roots.map wBlock)[i]? == (r0.roots.map wBlock)[i]? then [] else [s!"c17:fn{i}:stack-or-block-tree-changes-when-other-bodies-are-replaced"]) ++
+      (if pi_C15 r == pi_C15 r0 then [] else [s!"c17:variant{k}:global-declarations-change-with-bodies"])).eraseDups
+  | _ => []
 
 end SemVerif
